@@ -27,6 +27,18 @@ REVIEWED_CASTS = {
 }
 
 
+def _decided_elsewhere(ctx, fn):
+    """the entry of DECIDED_ELSEWHERE for fn or for the function whose private helper (only caller chain) fn is"""
+    f = fn
+    for _ in range(4):
+        if f in DECIDED_ELSEWHERE:
+            return DECIDED_ELSEWHERE[f] + ("" if f == fn else " [%s is a helper called only from %s]" % (fn, f))
+        f = panics.sole_caller(ctx.mir, f)
+        if f is None:
+            return None
+    return None
+
+
 def run(ctx, rep):
     rep.explanation = EXPLANATION
     rep.assumptions = ["core::time::Duration::as_millis/from_millis and TryFrom/TryInto between integers behave as documented"]
@@ -119,8 +131,8 @@ def narrow_casts(ctx, rep):
             why = None
             if c["fits"]:
                 why = "operand interval %s fits %s" % (list(c["iv"]), c["to"])
-            elif fn in DECIDED_ELSEWHERE:
-                why = "decided elsewhere: " + DECIDED_ELSEWHERE[fn]
+            elif _decided_elsewhere(ctx, fn):
+                why = "decided elsewhere: " + _decided_elsewhere(ctx, fn)
             elif k in REVIEWED_CASTS:
                 why = "reviewed idiom: " + REVIEWED_CASTS[k]
             elif o[0] == "call" and re.search(r"::len$", o[1] or "") and c["to"] in ("u8", "i32"):
